@@ -68,7 +68,7 @@ DeliverProblems(e) ==
         ELSE {})
   \cup CountProblems(e, sc, r.next)
 Problems(e) ==
-  CASE e.op = "TraceReset" -> {}
+  CASE e.op = "TraceReset" -> IF SenderIs(e, e.start) /\ ReceiverIs(e, e.start) THEN {} ELSE {"start-count"}     \* Count.Set(overflow, sqn)
     [] e.op = "Send"    -> WireProblems(e, Cx, Cx.dir, sc) \cup CountProblems(e, AddOne(sc), rc)
     [] e.op = "Skip"    -> (IF e.n >= 1 THEN WireProblems(e, Cx, Cx.dir, AddN(sc, e.n - 1)) ELSE {"harness"}) \cup CountProblems(e, AddN(sc, e.n), rc)
     [] e.op = "Reflect" -> WireProblems(e, Cx, 1 - Cx.dir, e.c) \cup CountProblems(e, sc, rc)
